@@ -197,9 +197,10 @@ def reductions(key):
         if par[k] != 0:                          # lift a nested lambda without children of its own to the top level
             if (k + 1) not in par and k == n - 1:
                 yield (cx, par[:k] + (0,), brk, span, sig)
-        for simpler in ('x', 'none'):
-            if sig[k] not in ('x', 'none'):
-                yield (cx, par, brk, span, sig[:k] + (simpler,) + sig[k + 1:])
+        if sig[k] != 'x':
+            yield (cx, par, brk, span, sig[:k] + ('x',) + sig[k + 1:])
+        if sig[k] not in ('x', 'none'):
+            yield (cx, par, brk, span, sig[:k] + ('none',) + sig[k + 1:])
 
 
 def describe(key, rec):
